@@ -351,6 +351,48 @@ def Sorted (c : Cfg) : Prop :=
   c.blocks.Pairwise (fun a b => a.index < b.index) ∧ c.edges.Pairwise (fun a b => edgeLt a b = true)
 
 -- ------------------------------------------------------------------------------------------------
+-- BlockTranslationResult::blockify (lib/translator/block_translation_result.rs)
+
+/-- the graph `blockify` has built before the appends: one empty block that is entry and exit -/
+def blockifyInit : Cfg := { blocks := [{ index := 0 }], entry := some 0, exit := some 0, nextIndex := 1 }
+
+/-- `for (_, cfg) in &self.instructions { control_flow_graph.append(cfg)?; }` -/
+def blockifyAppends : Cfg → List Cfg → Step Unit
+  | c, [] => ⟨c, .ok ()⟩
+  | c, d :: ds =>
+    match append c d with
+    | ⟨c', .ok ()⟩ => blockifyAppends c' ds
+    | r => r
+
+/-- `blockify`: a new graph with one block that is entry and exit, the instruction graphs appended in
+    order, then `merge`; every `?` of the code is an early return that drops the graph -/
+def blockify (ds : List Cfg) : Res Cfg :=
+  let s0 := newBlock new
+  match s0.res with
+  | .ok i =>
+    let s1 := setEntry s0.cfg i
+    match s1.res with
+    | .ok () =>
+      let s2 := setExit s1.cfg i
+      match s2.res with
+      | .ok () =>
+        match blockifyAppends s2.cfg ds with
+        | ⟨c, .ok ()⟩ =>
+          let m := merge c
+          match m.res with
+          | .ok () => .ok m.cfg
+          | .err e => .err e
+          | .panic => .panic
+        | ⟨_, .err e⟩ => .err e
+        | ⟨_, .panic⟩ => .panic
+      | .err e => .err e
+      | .panic => .panic
+    | .err e => .err e
+    | .panic => .panic
+  | .err e => .err e
+  | .panic => .panic
+
+-- ------------------------------------------------------------------------------------------------
 -- histories: the operations as data, over any number of graphs (the driver and `ops_wf` share `run`)
 
 inductive EditOp where
@@ -366,6 +408,8 @@ inductive EditOp where
   | bappend (g b h j : Nat)
   | rmins (g b idx : Nat)
   | temp (g bits : Nat)
+  /-- `g := BlockTranslationResult::new(instructions = the graphs hs, ..).blockify()?` -/
+  | blockify (g : Nat) (hs : List Nat)
   deriving Repr
 
 /-- what a call returns besides the new graph -/
@@ -383,7 +427,7 @@ def Graphs.set (s : Graphs) (g : Nat) (c : Cfg) : Graphs := fun i => if i = g th
 /-- the graph the operation edits -/
 def EditOp.target : EditOp → Nat
   | .newBlock g | .uedge g .. | .cedge g .. | .entry g _ | .exit g _ | .merge g | .append g _ | .insert g _
-  | .op g .. | .bappend g .. | .rmins g .. | .temp g _ => g
+  | .op g .. | .bappend g .. | .rmins g .. | .temp g _ | .blockify g _ => g
 
 /-- the call on the graphs, as a `Step` on the target graph -/
 def EditOp.step (s : Graphs) : EditOp → Step Outcome
@@ -399,6 +443,11 @@ def EditOp.step (s : Graphs) : EditOp → Step Outcome
   | .bappend g b h j => let r := blockAppendOp (s g) b (s h) j; ⟨r.cfg, r.res.map (fun _ => .unit)⟩
   | .rmins g b i => let r := removeInstruction (s g) b i; ⟨r.cfg, r.res.map (fun _ => .unit)⟩
   | .temp g n => let r := CfgEdit.temp (s g) n; ⟨r.cfg, r.res.map .scalar⟩
+  | .blockify g hs =>
+    match CfgEdit.blockify (hs.map s) with
+    | .ok c => ⟨c, .ok .unit⟩
+    | .err e => ⟨s g, .err e⟩
+    | .panic => ⟨s g, .panic⟩
 
 /-- one operation of a history; a panicking call leaves the graphs as they were (the harness restores
     its snapshot: the state after an unwinding `&mut self` call is unspecified) -/
